@@ -88,6 +88,7 @@ TAG_RULES = [
     (r'delta_list::fn sanity_check_ptfs', ['C04']),
     (r'delta_list::fn delta_for_tx', ['C01', 'C03']),
     (r'delta_list::', ['C01']),
+    (r'superficial_loss::fn get_superficial_loss_info', ['C02', 'C15']),
     (r'superficial_loss::', ['C02']),
     (r'portfolio_status::.*fn new', ['C04', 'C16']),
     (r'portfolio_status::.*fn (get_next_pre_status|get_latest_post_status_for_affiliate)', ['C01', 'C04']),
